@@ -38,7 +38,7 @@
 EXTENDS Integers, Sequences, FiniteSets, TLC
 
 CONSTANTS
-    Parts,      \* case families enumerated: subset of {"single","shape","index","height","dense","snap"}
+    Parts,      \* case families enumerated: subset of {"single","shape","index","height","dense","bulk","bulkq","snap","pool"}
     MaxOuts,    \* "shape": records of 1..MaxOuts outputs, every survivor subset (incl. the empty one)
     ScrSel,     \* "shape": the first ScrSel classes of ShapeNames are combined
     AmtStride,  \* "single": every AmtStride-th amount class per script class (1 = the full product)
@@ -47,7 +47,7 @@ CONSTANTS
     Lane, NLanes, \* this run enumerates the slice Lane (0..NLanes-1) of every record family (parallel TLC runs)
     MaxOpens,   \* snapshot machine: number of processes
     MaxSpends,  \* snapshot machine: number of Spend steps
-    Bug         \* "none" | "escape5" | "swap23" | "cb_lost" | "one_next" | "idx_w" | "amt_e9" | "noncanon" | "fresh_bit_only"
+    Bug         \* "none" | "escape5" | "swap23" | "cb_lost" | "one_next" | "idx_w" | "amt_e9" | "noncanon" | "fresh_bit_only" | "pack_short" | "pool_unlocked"
 
 VARIABLES
     phase,      \* "start" | "rec" (a record case, terminal) | "snap"
@@ -60,9 +60,10 @@ VARIABLES
     truth,      \* what was committed and not spent: id -> abstract record or NoRec
     used,       \* ids committed so far
     blk,        \* number of blocks committed (LastBlockHeight)
-    dirty, opens, spends
+    dirty, opens, spends,
+    pl          \* two concurrent SerializeC calls over the shared scratch pool (comp_val / comp_scr)
 
-vars == <<phase, c, rec, codec, db, file, truth, used, blk, dirty, opens, spends>>
+vars == <<phase, c, rec, codec, db, file, truth, used, blk, dirty, opens, spends, pl>>
 
 -----------------------------------------------------------------------------
 (* Numbers: decimal digits, least significant first, no leading zeros, <<>> = 0 *)
@@ -396,7 +397,29 @@ DenseRecs == IF "dense" \notin Parts \/ Lane # 0 THEN {} ELSE
       r |-> [id |-> 5, h |-> HTab[Pick(ni + pat, Len(HTab))], cb |-> cb = 1, n |-> DenseN[ni], outs |-> <<>>]]
        : ni \in 1..Len(DenseN), pat \in 0..4, cb \in 0..1}
 
-RecCases == SingleRecs \cup ShapeRecs \cup IndexRecs \cup HeightRecs \cup DenseRecs
+\* The snapshot loader (NewUnspentDb) hands the records it reads to the map writer in packs of RECS_PACK_SIZE slots:
+\* a full pack when its last slot is filled, the partly filled last pack at the end of the file.  Loaded(n, p) is the
+\* set of records (numbered in file order) that reach the map.
+PackSize == 65536
+Loaded(n, p) ==
+    LET full == n \div p
+        Handed(k) == IF Bug = "pack_short" THEN ((k - 1) * p + 1)..(k * p - 1) ELSE ((k - 1) * p + 1)..(k * p)
+    IN UNION {Handed(k) : k \in 1..full} \cup ((full * p + 1)..n)
+
+\* bulk sets: x one-output records committed in one block, saved, reloaded in a new process (y: 0 plain, 1 compressed);
+\* the sizes sit around the loader's pack size.  wide sets: two blocks of n records with y equal-size outputs each
+\* (UnspentDB.commit serialises them from many goroutines in groups of 32; SerializeC shares one scratch pool).
+\* The records are a function of their number that the harness owns; the expected value is the identity on the set.
+BulkSizes == <<PackSize - 1, PackSize, PackSize + 1, 2 * PackSize + 1>>
+BulkRecs == IF "bulk" \notin Parts \/ Lane # 0 THEN {} ELSE
+    {[c |-> Case("bulk", BulkSizes[si], 1, f), r |-> NilRec] : si \in 1..Len(BulkSizes), f \in 0..1}
+    \cup {[c |-> Case("wide", 3000, 60, f), r |-> NilRec] : f \in 0..1}
+\* the quick tier takes the pack size and the pack size + 1, one format each, and a smaller wide set in the compressed format
+BulkQuick == IF "bulkq" \notin Parts \/ Lane # 0 THEN {} ELSE
+    {[c |-> Case("bulk", PackSize, 1, Salt % 2), r |-> NilRec], [c |-> Case("bulk", PackSize + 1, 1, 1 - (Salt % 2)), r |-> NilRec],
+     [c |-> Case("wide", 1500, 40, 1), r |-> NilRec]}
+
+RecCases == SingleRecs \cup ShapeRecs \cup IndexRecs \cup HeightRecs \cup DenseRecs \cup BulkRecs \cup BulkQuick
 
 -----------------------------------------------------------------------------
 (* Snapshot machine *)
@@ -430,7 +453,7 @@ SOpen(optC) ==
             /\ codec' = IF file.bit THEN "C" ELSE "U"
     /\ blk' = IF file.exists THEN file.height ELSE 0
     /\ dirty' = FALSE
-    /\ UNCHANGED <<rec, file, truth, used, spends>>
+    /\ UNCHANGED <<rec, file, truth, used, spends, pl>>
 
 SCommit(r) ==
     /\ phase = "snap" /\ db.open /\ r \notin used
@@ -438,7 +461,7 @@ SCommit(r) ==
     /\ db' = [db EXCEPT !.mem[r] = [fmt |-> codec, rec |-> SnapRec(r)]]
     /\ truth' = [truth EXCEPT ![r] = [fmt |-> "", rec |-> SnapRec(r)]]
     /\ used' = used \cup {r} /\ blk' = blk + 1 /\ dirty' = TRUE
-    /\ UNCHANGED <<phase, rec, codec, file, opens, spends>>
+    /\ UNCHANGED <<phase, rec, codec, file, opens, spends, pl>>
 
 SSpend(r, i) ==
     /\ phase = "snap" /\ db.open /\ spends < MaxSpends /\ truth[r] # NoRec /\ i \in Alive(truth[r].rec)
@@ -448,14 +471,14 @@ SSpend(r, i) ==
        THEN LET nm == Remove(db.mem[r].rec, i) IN db' = [db EXCEPT !.mem[r] = IF nm.outs = <<>> THEN NoRec ELSE [fmt |-> codec, rec |-> nm]]
        ELSE db' = db                                         \* undecodable (only reachable with Bug = "fresh_bit_only"): the record is not what it should be
     /\ blk' = blk + 1 /\ dirty' = TRUE /\ spends' = spends + 1
-    /\ UNCHANGED <<phase, rec, codec, file, used, opens>>
+    /\ UNCHANGED <<phase, rec, codec, file, used, opens, pl>>
 
 SClose ==
     /\ phase = "snap" /\ db.open
     /\ c' = Case("Close", 0, 0, 0)
     /\ file' = IF dirty THEN [bit |-> db.bit, exists |-> TRUE, height |-> blk, recs |-> db.mem] ELSE file
     /\ db' = NoDb /\ dirty' = FALSE
-    /\ UNCHANGED <<phase, rec, codec, truth, used, blk, opens, spends>>
+    /\ UNCHANGED <<phase, rec, codec, truth, used, blk, opens, spends, pl>>
 
 SnapStep == \/ \E o \in BOOLEAN : SOpen(o)
             \/ \E r \in SnapIds : SCommit(r)
@@ -468,22 +491,43 @@ RecCase ==
     /\ phase = "start"
     /\ \E rc \in RecCases : c' = rc.c /\ rec' = rc.r
     /\ phase' = "rec"
-    /\ UNCHANGED <<codec, db, file, truth, used, blk, dirty, opens, spends>>
+    /\ UNCHANGED <<codec, db, file, truth, used, blk, dirty, opens, spends, pl>>
+
+(* Two SerializeC calls in flight (UnspentDB.commit runs them in parallel).  Each call takes comp_pool_mutex, fills   *)
+(* pool[i] with the compressed value / script of its output i, then writes the record from the pool, then unlocks.    *)
+PoolK == 2
+PVal(t, i) == t * 10 + i
+PoolInit == [mutex |-> 0, pool |-> [i \in 1..PoolK |-> 0], pc |-> [t \in 1..2 |-> "idle"], idx |-> [t \in 1..2 |-> 1],
+             out |-> [t \in 1..2 |-> [i \in 1..PoolK |-> 0]]]
+PNextIdx(t) == IF pl.idx[t] = PoolK THEN 1 ELSE pl.idx[t] + 1
+PLock(t)   == pl.pc[t] = "idle" /\ pl.mutex = 0
+              /\ pl' = [pl EXCEPT !.mutex = IF Bug = "pool_unlocked" THEN 0 ELSE t, !.pc[t] = "fill"]   \* broken: unlocked before the pool is used
+PFill(t)   == pl.pc[t] = "fill"
+              /\ pl' = [pl EXCEPT !.pool[pl.idx[t]] = PVal(t, pl.idx[t]), !.idx[t] = PNextIdx(t), !.pc[t] = IF pl.idx[t] = PoolK THEN "emit" ELSE "fill"]
+PEmit(t)   == pl.pc[t] = "emit"
+              /\ pl' = [pl EXCEPT !.out[t][pl.idx[t]] = pl.pool[pl.idx[t]], !.idx[t] = PNextIdx(t), !.pc[t] = IF pl.idx[t] = PoolK THEN "unlock" ELSE "emit"]
+PUnlock(t) == pl.pc[t] = "unlock"
+              /\ pl' = [pl EXCEPT !.mutex = IF pl.mutex = t THEN 0 ELSE pl.mutex, !.pc[t] = "done"]
+PoolStep ==
+    /\ phase \in {"start", "pool"} /\ "pool" \in Parts
+    /\ phase' = "pool" /\ c' = Case("pool", 0, 0, 0)
+    /\ \E t \in 1..2 : PLock(t) \/ PFill(t) \/ PEmit(t) \/ PUnlock(t)
+    /\ UNCHANGED <<rec, codec, db, file, truth, used, blk, dirty, opens, spends>>
 
 Init == /\ phase = "start" /\ c = Case("start", 0, 0, 0) /\ rec = NilRec
         /\ codec = "U" /\ db = NoDb /\ file = NoFile /\ truth = [r \in SnapIds |-> NoRec] /\ used = {} /\ blk = 0
-        /\ dirty = FALSE /\ opens = 0 /\ spends = 0
+        /\ dirty = FALSE /\ opens = 0 /\ spends = 0 /\ pl = PoolInit
 
-Next == RecCase \/ SnapStep
+Next == RecCase \/ SnapStep \/ PoolStep
 
 Spec == Init /\ [][Next]_vars
 
 -----------------------------------------------------------------------------
 (* The property *)
 
-IsRec == phase = "rec" /\ c.k # "dense"
+IsRec == phase = "rec" /\ c.k \notin {"dense", "bulk", "wide"}
 
-TypeOK == /\ phase \in {"start", "rec", "snap"}
+TypeOK == /\ phase \in {"start", "rec", "snap", "pool"}
           /\ codec \in Fmts
           /\ IsRec => /\ rec.n >= 1 /\ \A j \in 1..Len(rec.outs) : rec.outs[j].i < rec.n /\ rec.outs[j].s \in 1..Len(ScrTab)
                       /\ \A j \in 1..(Len(rec.outs) - 1) : rec.outs[j].i < rec.outs[j + 1].i
@@ -518,4 +562,9 @@ SnapReadIdentity == phase = "snap" /\ db.open => \A r \in SnapIds : Read(r) = Wa
 HeaderNamesCodec == file.exists => \A r \in SnapIds : file.recs[r] # NoRec => file.recs[r].fmt = (IF file.bit THEN "C" ELSE "U")
 \* the file holds exactly the set at the time of the save
 FileIsTruth == (phase = "snap" /\ ~db.open /\ file.exists /\ used # {}) => \A r \in SnapIds : (file.recs[r] = NoRec) = (truth[r] = NoRec)
+\* the loader puts every record of the file into the map, whatever the number of records is relative to the pack size
+LoaderComplete == phase # "" => \A p \in 2..4 :   \* (mentions a variable so that TLC reports it as an invariant of the behaviour)
+    \A n \in 0..(2 * p + 2) : Loaded(n, p) = 1..n
+\* concurrent serialisations do not see each other's scratch entries
+PoolSerialised == \A t \in 1..2 : pl.pc[t] = "done" => \A i \in 1..PoolK : pl.out[t][i] = PVal(t, i)
 =============================================================================
